@@ -182,7 +182,7 @@ fn c23_type_attribute_len1() { check_type_attribute::<1>(); }
 #[kani::unwind(5)]
 fn c23_type_attribute_len2() { check_type_attribute::<2>(); }
 
-// @verif prop=C23 class=bounded tier=quick bound="all strings of length 3 over the 11-byte class alphabet {a Z 7 _ . ( ) : @ - SP}" targets="TypeAttributeCoordinate::from_str" timeout=600
+// @verif prop=C23 class=bounded tier=thorough bound="all strings of length 3 over the 11-byte class alphabet {a Z 7 _ . ( ) : @ - SP}" targets="TypeAttributeCoordinate::from_str" timeout=600
 #[kani::proof]
 #[kani::unwind(6)]
 fn c23_type_attribute_len3() { check_type_attribute::<3>(); }
@@ -207,12 +207,12 @@ fn c23_type_attribute_len6() { check_type_attribute::<6>(); }
 #[kani::unwind(10)]
 fn c23_type_attribute_len7() { check_type_attribute::<7>(); }
 
-// @verif prop=C23 class=bounded tier=quick bound="all strings of length 0 over the 11-byte class alphabet {a Z 7 _ . ( ) : @ - SP}" targets="FieldArgumentCoordinate::from_str" timeout=600
+// @verif prop=C23 class=bounded tier=thorough bound="all strings of length 0 over the 11-byte class alphabet {a Z 7 _ . ( ) : @ - SP}" targets="FieldArgumentCoordinate::from_str" timeout=600
 #[kani::proof]
 #[kani::unwind(3)]
 fn c23_field_argument_len0() { check_field_argument::<0>(); }
 
-// @verif prop=C23 class=bounded tier=quick bound="all strings of length 1 over the 11-byte class alphabet {a Z 7 _ . ( ) : @ - SP}" targets="FieldArgumentCoordinate::from_str" timeout=600
+// @verif prop=C23 class=bounded tier=thorough bound="all strings of length 1 over the 11-byte class alphabet {a Z 7 _ . ( ) : @ - SP}" targets="FieldArgumentCoordinate::from_str" timeout=600
 #[kani::proof]
 #[kani::unwind(4)]
 fn c23_field_argument_len1() { check_field_argument::<1>(); }
@@ -287,17 +287,17 @@ fn c23_directive_len6() { check_directive::<6>(); }
 #[kani::unwind(10)]
 fn c23_directive_len7() { check_directive::<7>(); }
 
-// @verif prop=C23 class=bounded tier=quick bound="all strings of length 0 over the 11-byte class alphabet {a Z 7 _ . ( ) : @ - SP}" targets="DirectiveArgumentCoordinate::from_str" timeout=600
+// @verif prop=C23 class=bounded tier=thorough bound="all strings of length 0 over the 11-byte class alphabet {a Z 7 _ . ( ) : @ - SP}" targets="DirectiveArgumentCoordinate::from_str" timeout=600
 #[kani::proof]
 #[kani::unwind(3)]
 fn c23_directive_argument_len0() { check_directive_argument::<0>(); }
 
-// @verif prop=C23 class=bounded tier=quick bound="all strings of length 1 over the 11-byte class alphabet {a Z 7 _ . ( ) : @ - SP}" targets="DirectiveArgumentCoordinate::from_str" timeout=600
+// @verif prop=C23 class=bounded tier=thorough bound="all strings of length 1 over the 11-byte class alphabet {a Z 7 _ . ( ) : @ - SP}" targets="DirectiveArgumentCoordinate::from_str" timeout=600
 #[kani::proof]
 #[kani::unwind(4)]
 fn c23_directive_argument_len1() { check_directive_argument::<1>(); }
 
-// @verif prop=C23 class=bounded tier=quick bound="all strings of length 2 over the 11-byte class alphabet {a Z 7 _ . ( ) : @ - SP}" targets="DirectiveArgumentCoordinate::from_str" timeout=600
+// @verif prop=C23 class=bounded tier=thorough bound="all strings of length 2 over the 11-byte class alphabet {a Z 7 _ . ( ) : @ - SP}" targets="DirectiveArgumentCoordinate::from_str" timeout=600
 #[kani::proof]
 #[kani::unwind(5)]
 fn c23_directive_argument_len2() { check_directive_argument::<2>(); }
